@@ -180,16 +180,8 @@ def build_scene(name: str) -> dict:
     val = pts.add_data({"c10_val": {"values": np.array([1.0, 2.0, 3.0, 4.0])}})
     pts.add_data_to_group(val, "C10_PtsGroup")
     uids = {"main": main.uid, "other": other.uid, "pts": pts.uid, "val": val.uid, "pg": None, "child": None}
-    if isinstance(main, ObjectBase) and type(main).__name__ not in ("ConcatenatedDrillhole",):
-        kids = [c for c in main.children if hasattr(c, "association") and getattr(c.association, "name", "") in ("VERTEX", "CELL")]
-        if not main.property_groups and kids:
-            main.add_data_to_group(kids[0], "C10_PG")
-        if main.property_groups:
-            uids["pg"] = main.property_groups[0].uid
-    if hasattr(main, "children") and name not in ("RootGroup",):
-        kids = [c for c in main.children if hasattr(c, "entity_type")]
-        if kids:
-            uids["child"] = kids[0].uid
+    if name != "ALL":
+        _furnish(ws, main, uids)
     if name == "PropertyGroup":
         uids["pg"] = main.uid
     all_uids = {k: v.uid for k, v in ents.items()}
@@ -198,6 +190,37 @@ def build_scene(name: str) -> dict:
     scene = {"name": name, "bytes": data, "uids": uids, "all": all_uids, "sha": hashlib.sha256(data).hexdigest()}
     _SCENES[name] = scene
     return scene
+
+
+def _furnish(ws, main, uids):
+    """Bystanders that make the argument tuples valid: a child for empty groups, a data child for bare
+    objects, a property group and a free data set of the same association for objects without one."""
+    from geoh5py.data import Data
+    from geoh5py.groups import Group, RootGroup
+    from geoh5py.objects import ObjectBase, Points
+
+    concat = storage_tag(main) != "plain"
+    if isinstance(main, Group) and not isinstance(main, RootGroup) and not concat and not main.children:
+        Points.create(ws, vertices=fixtures.V4.copy(), name="C10_Kid", parent=main)
+    if isinstance(main, ObjectBase) and not concat:
+        if not [c for c in main.children if isinstance(c, Data)]:
+            try:
+                main.add_data({"c10_obj": {"values": np.array([1.5]), "association": "OBJECT"}})
+            except Exception:  # pylint: disable=broad-except
+                pass
+        kids = [c for c in main.children if isinstance(c, Data) and getattr(c.association, "name", "") in ("VERTEX", "CELL") and hasattr(c, "values") and isinstance(c.values, np.ndarray)]
+        if not main.property_groups and kids:
+            main.add_data_to_group(kids[0], "C10_PG")
+            try:
+                main.add_data({"c10_free": {"values": np.arange(len(kids[0].values), dtype=float), "association": kids[0].association.name}})
+            except Exception:  # pylint: disable=broad-except
+                pass
+        if main.property_groups:
+            uids["pg"] = main.property_groups[0].uid
+    if hasattr(main, "children") and not isinstance(main, RootGroup):
+        kids = [c for c in main.children if hasattr(c, "entity_type")]
+        if kids:
+            uids["child"] = kids[0].uid
 
 
 # ---------------------------------------------------------------------------
@@ -213,6 +236,7 @@ class Env:
         self.extra_ws: list = []
         self.counter = 0
         self.explicit_rw = False  # set while / after an op that explicitly asks for "r+"
+        self.opens_mark = 0  # file openings recorded before this index belong to an explicit request for "r+"
 
     # -- entities -------------------------------------------------------------
     def ent(self, key):
@@ -297,6 +321,8 @@ def is_getter_method(name: str) -> bool:
 # ---------------------------------------------------------------------------
 def _first_child(env, obj):
     kids = [c for c in getattr(obj, "children", []) if hasattr(c, "entity_type")]
+    if not kids and storage_tag(obj) == "concatenated" and hasattr(obj, "get_data"):
+        kids = [c for c in obj.get_data("log") if c is not None]  # concatenated children load lazily
     if not kids:
         raise LookupError("no child")
     return kids[0]
@@ -306,6 +332,8 @@ def _data_child(env, obj):
     from geoh5py.data import Data
 
     kids = [c for c in getattr(obj, "children", []) if isinstance(c, Data)]
+    if not kids and storage_tag(obj) == "concatenated" and hasattr(obj, "get_data"):
+        kids = [c for c in obj.get_data("log") if c is not None]
     if not kids:
         raise LookupError("no data child")
     return kids[0]
@@ -710,9 +738,9 @@ HELPERS = {
     "open_again": ("getter", False),
     "close;open;rename": ("mutator", False),
     "path2workspace": ("getter", False),
-    "path2workspace;use": ("getter", False),
+    "closed;path2workspace;use": ("getter", False),
     "read_ui_json": ("getter", False),
-    "read_ui_json;use": ("getter", False),
+    "closed;read_ui_json;use": ("getter", False),
     "input_file_data_setter": ("getter", False),
     "monitored_directory_copy": ("getter", False),
     "closed;monitored_directory_copy": ("getter", False),
@@ -725,6 +753,11 @@ HELPERS = {
     "active_workspace(rename)": ("mutator", False),
 }
 HELPER_SENTENCE = ("path2workspace", "read_ui_json", "monitored_directory_copy", "faw_", "closed;", "save_as", "input_file")
+
+
+class OutsideQuantifier(Exception):
+    """The op turned into something the statement does not speak about; recorded as 'raised' so that
+    nothing after it is compared with the twin."""
 
 
 def helper_ops() -> list:
@@ -789,6 +822,7 @@ def run_helper(env, name):  # noqa: C901  pylint: disable=too-many-branches,too-
                 pass
         finally:
             env.explicit_rw = False
+            env.opens_mark = len(OPENS)
         ws.open()
     elif name == "close;open":
         ws.close()
@@ -799,15 +833,19 @@ def run_helper(env, name):  # noqa: C901  pylint: disable=too-many-branches,too-
         ws.close()
         ws.open()
         _rename(env)
-    elif name in ("path2workspace", "path2workspace;use"):
+    elif name in ("path2workspace", "closed;path2workspace;use"):
+        if name.startswith("closed"):
+            ws.close()
         w2 = path2workspace(str(ws.h5file))
         env.extra_ws.append(w2)
         if name.endswith("use"):
             w2.open()
             env.ws = w2
             env.extra_ws.append(ws)
-    elif name in ("read_ui_json", "read_ui_json;use"):
+    elif name in ("read_ui_json", "closed;read_ui_json;use"):
         path = _ui_json_file(env)
+        if name.startswith("closed"):
+            ws.close()
         ifile = InputFile.read_ui_json(path)
         w2 = ifile.geoh5
         env.extra_ws.append(w2)
@@ -836,6 +874,11 @@ def run_helper(env, name):  # noqa: C901  pylint: disable=too-many-branches,too-
         env.explicit_rw = True
         w2 = Workspace(ws.h5file, mode="r+")
         env.extra_ws.append(w2)
+        if env.tag == "ro" and _handle_state(w2) != "r":
+            # the read-only handle was closed by an earlier op: this is an ordinary read-write session the
+            # user asked for (outside the quantifier) - nothing is done with it
+            w2.close()
+            raise OutsideQuantifier("read-write session on a file no read-only handle holds")
         _rename(env, w2)
     elif name == "repack;close":
         ws.repack = True
@@ -929,8 +972,18 @@ def _light_state(env) -> str:
     return core.digest((env.scene["name"], _handle_state(ws), sorted(rows)))
 
 
+def close_witness(prev) -> str:
+    """Witness of something seen at the final close(): named after the op that preceded it (the ops on
+    concatenated storage share one mechanism - the cached attribute table - hence one witness per kind)."""
+    if prev is None:
+        return "close"
+    if prev["k"] != "helper" and prev["storage"] != "plain":
+        return f"close-after:{prev['k']}[{prev['storage']}]"
+    return "close-after:" + witness(prev)
+
+
 def run_ro(scene, ops, workdir) -> dict:
-    """Read-only run: outcome of every op, the three direct clauses, final close."""
+    """Read-only run: outcome of every op, the direct clauses after every op (the last op is the final close)."""
     from geoh5py.workspace import Workspace
 
     path = workdir / f"ro_{workdir.name}.geoh5"
@@ -941,14 +994,14 @@ def run_ro(scene, ops, workdir) -> dict:
     ws = Workspace(path, mode="r")
     env = Env(scene, ws, path, workdir, "ro")
     viol, outcomes, errors = [], [], []
-    opened_before = len(OPENS)
+    seen_opens = len(OPENS)
 
-    def check(op, label, idx):
-        nonlocal opened_before
-        exempt = env.explicit_rw or (op is not None and op["k"] == "helper" and HELPERS[op["m"]][1])
-        wit = witness(op) if op is not None else label
-        # files the workspaces are attached to now
-        for w in [env.ws] + env.extra_ws:
+    def check(op, prev, idx):
+        nonlocal seen_opens
+        label = op_label(op)
+        exempt = env.explicit_rw or (op["k"] == "helper" and HELPERS[op["m"]][1])
+        wit = close_witness(prev) if op.get("implicit") else witness(op)
+        for w in [env.ws] + env.extra_ws:  # files the workspaces are attached to now
             p = _attached(w)
             if p is not None and p not in tracked and Path(p).is_file():
                 tracked[p] = _sha(p)
@@ -956,12 +1009,14 @@ def run_ro(scene, ops, workdir) -> dict:
             now = _sha(p) if Path(p).is_file() else "<missing>"
             if now != sha:
                 clause = "bytes-unchanged"
-                if op is not None and op["k"] == "helper" and any(s in op["m"] for s in HELPER_SENTENCE):
+                if op["k"] == "helper" and any(s in op["m"] for s in HELPER_SENTENCE):
                     clause = "helper-leaves-source-unchanged"
-                viol.append((clause, wit, {"step": idx, "after": label, "file": Path(p).name, "semantic_diff": _semantic_diff(scene, p)}))
+                sem = _semantic_diff(scene, p) if now != "<missing>" else ["file removed"]
+                kind = "content-changed" if sem else "rewritten-same-content"
+                viol.append((clause, f"{wit}:{kind}", {"step": idx, "after": label, "file": Path(p).name, "semantic_diff": sem}))
                 tracked[p] = now  # report once per change
-        new_opens = OPENS[opened_before:]
-        opened_before = len(OPENS)
+        new_opens = OPENS[max(seen_opens, env.opens_mark):]
+        seen_opens = len(OPENS)
         if not exempt:
             for w in [env.ws] + env.extra_ws:
                 st = _handle_state(w)
@@ -974,7 +1029,10 @@ def run_ro(scene, ops, workdir) -> dict:
                 if key in tracked and got != "r":
                     viol.append(("handle-stays-read-only", wit, {"step": idx, "after": label, "opened": Path(key).name, "asked": asked, "got": got}))
 
+    state = None
     for idx, op in enumerate(ops):
+        if op.get("implicit"):
+            state = _light_state(env)
         try:
             apply_op(env, op)
             outcomes.append("ok")
@@ -982,15 +1040,14 @@ def run_ro(scene, ops, workdir) -> dict:
         except Exception as err:  # pylint: disable=broad-except
             outcomes.append("raised")
             errors.append(f"{type(err).__name__}: {str(err)[:160]}")
-        check(op, op_label(op), idx)
-    state = _light_state(env)
+        check(op, ops[idx - 1] if idx else None, idx)
     _close_everything(env)
     return {"viol": viol, "outcomes": outcomes, "errors": errors, "state": state}
 
 
 def _semantic_diff(scene, path) -> list:
     try:
-        before = rawh5.digests(scene["bytes"])
+        before = scene_digests(scene)
         after = rawh5.digests(Path(path).read_bytes())
         return sorted(str(k) + ":" + ",".join(sorted(v)) for k, v in rawh5.diff_digests(before, after).items())[:8]
     except Exception as err:  # pylint: disable=broad-except
@@ -1011,6 +1068,15 @@ def _twin_bytes(env):
     return Path(f).read_bytes()
 
 
+def scene_digests(scene):
+    if "dig" not in scene:
+        scene["dig"] = _dig(scene["bytes"])
+    return scene["dig"]
+
+
+_CASES = [0]
+
+
 def _dig(data):
     try:
         return rawh5.digests(data)
@@ -1028,7 +1094,7 @@ def run_twin(scene, ops, workdir) -> dict:
     ws = Workspace(path, mode="r+")
     env = Env(scene, ws, path, workdir, "rw")
     prev_bytes = _twin_bytes(env)
-    prev_dig = None  # computed lazily
+    prev_dig = scene_digests(scene)
     wrote, outcomes, errors, diffs = [], [], [], []
     for op in ops:
         try:
@@ -1043,8 +1109,6 @@ def run_twin(scene, ops, workdir) -> dict:
             wrote.append(False)
             diffs.append([])
             continue
-        if prev_dig is None:
-            prev_dig = _dig(prev_bytes)
         now_dig = _dig(now)
         d = rawh5.diff_digests(prev_dig, now_dig)
         wrote.append(bool(d))
@@ -1068,18 +1132,14 @@ def witness(op) -> str:
 CLOSE_OP = {"t": "ws", "k": "call", "m": "close", "v": 0, "owner": "Workspace", "cls": "Workspace", "storage": "plain", "role": "mutator", "implicit": True}
 
 
-def diff_kinds(lines) -> str:
-    kinds = set()
-    for ln in lines:
-        kinds.update(ln.rsplit(":", 1)[-1].split(","))
-    return "+".join(sorted(kinds))
-
-
 def run_case(case, need_twin="auto") -> dict:
     """One case = {"scene", "ops"}; the harness appends the final close() as one more op.
-    need_twin: "always" - every op that returned normally in the read-only run is judged against the twin;
-    "auto" - only the last op and the final close() (earlier ops are judged by the cases in which they come
-    last), and the twin is not run at all when the last op raised in the read-only run."""
+
+    must-raise is judged along the prefix of ops that returned normally in the read-only run (after a
+    refused op the twin, in which that op succeeded, is no longer the same program state).
+    need_twin: "always" - every op of that prefix is judged (and the twin always runs, for the evidence
+    numbers); "auto" - only the last user op and the final close() are judged (earlier ops are judged by
+    the cases in which they come last) and the twin is skipped when a user op raised read-only."""
     install_observer()
     install_repack()
     scene = build_scene(case["scene"])
@@ -1091,22 +1151,22 @@ def run_case(case, need_twin="auto") -> dict:
         ro = run_ro(scene, ops, workdir)
         viol = list(ro["viol"])
         twin = None
-        if need_twin == "always" or len(user_ops) == 1 or ro["outcomes"][last] == "ok":
+        if need_twin == "always" or all(o == "ok" for o in ro["outcomes"][: last + 1]):
             twin = run_twin(scene, ops, workdir)
             for i, op in enumerate(ops):
-                if ro["outcomes"][i] != "ok" or not twin["wrote"][i]:
+                if ro["outcomes"][i] != "ok":
+                    break
+                if not twin["wrote"][i] or (need_twin != "always" and i < last):
                     continue
-                if need_twin != "always" and i < last:
-                    continue
-                wit = witness(op)
-                if op.get("implicit") or op["m"] in ("close", "finalize"):
-                    wit += ":" + diff_kinds(twin["diffs"][i])
+                wit = close_witness(ops[i - 1] if i else None) if op.get("implicit") else witness(op)
                 viol.append((
                     "must-raise", wit,
                     {"step": i, "op": op_label(op), "twin_changed": twin["diffs"][i], "read_only_outcome": "returned normally",
                      "twin_outcome": twin["outcomes"][i]},
                 ))
-        world.full_collect()
+        _CASES[0] += 1
+        if _CASES[0] % 8 == 0:  # garbage of finished cases (the collector is disabled while a case runs)
+            world.full_collect()
         return {
             "viol": [[c, w, d] for c, w, d in viol],
             "ro": ro["outcomes"], "ro_errors": ro["errors"], "state": ro["state"],
